@@ -197,71 +197,116 @@ TYPE_OPTIONS = {
 PALETTE = ['red', 'green', 'blue', 'orange', 'purple', 'teal', 'navy', 'maroon', 'olive', 'aliceblue', '#123456', 'gold', 'pink', 'brown', 'gray']
 
 
-def _colourful_case(I, RR, qr, rnd):
-    from spec import readers_vector as RV
+def _expected_colour_fn(qr, ver, ckw, dark, light):
+    """(module row, module column) relative to the symbol -> (option name, expected colour or None for transparent, skip?)"""
+    size = len(qr.matrix)
+    fm = layout.function_map(ver)
+
+    def want(i, j):
+        if not (0 <= i < size and 0 <= j < size):
+            opt, fallback = 'quiet_zone', light
+        else:
+            kind_, val = fm[(i, j)]
+            bit = qr.matrix[i][j]
+            if kf.active('F-C11-format-light-8-size9') and ver >= 1 and (i, j) == (8, size - 9):
+                return None, None, True        # known finding of C11: this module is treated as format information
+            opt = TYPE_OPTIONS.get((kind_, bit), TYPE_OPTIONS.get((kind_, 0)) if kind_ == layout.SEPARATOR else None)
+            fallback = dark if bit else light
+        if opt in ckw:
+            return opt, (expected_rgba(ckw[opt], None) if ckw[opt] is not None else None), False
+        return opt, fallback, False
+    return want
+
+
+def _colourful_case(I, RR, qr, rnd, kinds=('png', 'ppm', 'svg')):
     ver = _iso_version(qr)
     if len(qr.matrix) != iso.symbol_size(ver):
         return
-    kind = rnd.choice(('png', 'ppm'))
+    kind = rnd.choice(kinds)
     names = sorted(set(TYPE_OPTIONS.values()) | {'quiet_zone'})
     chosen = rnd.sample(names, rnd.randrange(2, len(names) + 1))
     cols = rnd.sample(PALETTE, len(PALETTE))
     ckw = {nm: cols[i % len(cols)] for i, nm in enumerate(chosen)}
-    if kind == 'png' and rnd.random() < 0.4:
+    if kind in ('png', 'svg') and rnd.random() < 0.4:
         ckw[rnd.choice(('light', 'quiet_zone', 'data_light'))] = None        # transparent module type
     scale, border = rnd.choice((1, 2, 3)), rnd.choice((0, 1, 2, None))
     wit = dict(symbol=qr.designator, kind=kind, scale=scale, border=border, colours=ckw)
     rp = dict(fn='replay_colourful', designator=qr.designator, version=_iso_version(qr), kind=kind, scale=scale, border=border, ckw=repr(ckw))
-    try:
-        out = io.BytesIO()
-        qr.save(out, kind=kind, scale=scale, border=border, **ckw)
-        r = getattr(RR, 'read_' + kind)(out.getvalue())
-        probs = list(r.problems)
-        size = len(qr.matrix)
-        b = border if border is not None else (2 if qr.is_micro else 4)
-        fm = layout.function_map(ver)
-        dark = expected_rgba(ckw.get('dark', 'black'), None) if 'dark' in ckw else (0, 0, 0, 255)
-        light = expected_rgba(ckw['light'], None) if 'light' in ckw else (255, 255, 255, 255)
-        if r.width != (size + 2 * b) * scale or r.height != r.width:
-            probs.append('dimensions %dx%d' % (r.width, r.height))
-        else:
-            bad = 0
-            for y in range(r.height):
-                i = y // scale - b
-                for x in range(r.width):
-                    j = x // scale - b
-                    if not (0 <= i < size and 0 <= j < size):
-                        opt, fallback = 'quiet_zone', light
-                    else:
-                        kind_, val = fm[(i, j)]
-                        bit = qr.matrix[i][j]
-                        if kf.active('F-C11-format-light-8-size9') and ver >= 1 and (i, j) == (8, size - 9):
-                            continue        # known finding of C11: this module is treated as format information
-                        opt = TYPE_OPTIONS.get((kind_, bit), TYPE_OPTIONS.get((kind_, 0)) if kind_ == layout.SEPARATOR else None)
-                        fallback = dark if bit else light
-                    if opt in ckw:
-                        want = expected_rgba(ckw[opt], None) if ckw[opt] is not None else None
-                    else:
-                        want = fallback
-                    got = r.pixels[y][x]
-                    ok = (got[3] == 0) if want is None else (tuple(got) == tuple(want))
-                    if not ok:
-                        bad += 1
-                        if bad <= 2:
-                            probs.append('pixel (%d,%d) module (%d,%d) option %s: %r, expected %r' % (x, y, i, j, opt, got, want))
-            if bad > 2:
-                probs.append('%d wrong pixels' % bad)
-    except ValueError as ex:
-        probs = []          # refusal of a colour combination the format cannot represent
-    except Exception as ex:
-        probs = ['raised %r' % (ex,)]
+    probs = colourful_problems(qr, ver, kind, scale, border, ckw)
     if not probs:
         I.ground_pass('C09.bounded.colourful_%s.module_has_colour_of_its_type' % kind, 1, kind='bounded')
     else:
         I.ground('C09.bounded.colourful_%s.module_has_colour_of_its_type' % kind, False, witness=dict(wit, problems=probs[:3]), kind='bounded', replay=rp)
 
 
-# ------------------------------------------------------------------ deductive kernel: size / scale / border arithmetic (all integers)
+def colourful_problems(qr, ver, kind, scale, border, ckw):
+    """saves the symbol colour-indexed and reads it back: every module (quiet zone included) has the colour configured for its ISO type"""
+    from spec import readers_raster as RR
+    try:
+        out = io.BytesIO()
+        qr.save(out, kind=kind, scale=scale, border=border, **ckw)
+        size = len(qr.matrix)
+        b = border if border is not None else (2 if qr.is_micro else 4)
+        dark = expected_rgba(ckw.get('dark', 'black'), None) if 'dark' in ckw else (0, 0, 0, 255)
+        if kind == 'svg':
+            light = expected_rgba(ckw['light'], None) if ckw.get('light') is not None else None      # SVG: no light colour unless requested
+        else:
+            light = expected_rgba(ckw['light'], None) if 'light' in ckw else (255, 255, 255, 255)
+        want = _expected_colour_fn(qr, ver, ckw, dark, light)
+        n = size + 2 * b
+        bad = 0
+        probs = []
+        if kind == 'svg':
+            from spec import readers_svgmulti as RS
+            r = RS.read(out.getvalue())
+            probs = list(r['problems'])
+            if r['width'] is None or abs(r['width'] - n * scale) > 1e-6 or abs(r['height'] - n * scale) > 1e-6 or abs(r['scale'] - scale) > 1e-9:
+                probs.append('page %rx%r scale %r, expected %r' % (r['width'], r['height'], r['scale'], n * scale))
+            bg = r['background']['colour'] if r['background'] else None
+            for (row, col), cs in r['cells'].items():
+                if not (0 <= row < n and 0 <= col < n):
+                    probs.append('cell (%d,%d) painted outside the page' % (row, col))
+            for y in range(n):
+                for x in range(n):
+                    opt, w, skip = want(y - b, x - b)
+                    if skip:
+                        continue
+                    cs = r['cells'].get((y, x), [])
+                    got = cs[-1] if cs else bg
+                    ok = len(cs) <= 1 and ((got is None or got[3] == 0) if w is None else (got is not None and tuple(got) == tuple(w)))
+                    if not ok:
+                        bad += 1
+                        if bad <= 2:
+                            probs.append('module (%d,%d) option %s: painted %r, expected %r' % (y - b, x - b, opt, cs or bg, w))
+        else:
+            r = getattr(RR, 'read_' + kind)(out.getvalue())
+            probs = list(r.problems)
+            if r.width != n * scale or r.height != r.width:
+                probs.append('dimensions %dx%d' % (r.width, r.height))
+            else:
+                for y in range(r.height):
+                    i = y // scale - b
+                    for x in range(r.width):
+                        j = x // scale - b
+                        opt, w, skip = want(i, j)
+                        if skip:
+                            continue
+                        got = r.pixels[y][x]
+                        ok = (got[3] == 0) if w is None else (tuple(got) == tuple(w))
+                        if not ok:
+                            bad += 1
+                            if bad <= 2:
+                                probs.append('pixel (%d,%d) module (%d,%d) option %s: %r, expected %r' % (x, y, i, j, opt, got, w))
+        if bad > 2:
+            probs.append('%d wrong cells' % bad)
+        return probs
+    except ValueError:
+        return []          # refusal of a colour combination the format cannot represent
+    except Exception as ex:
+        import traceback
+        return ['raised %r %s' % (ex, traceback.format_exc()[-300:])]
+
+
 def task_size_arithmetic(I):
     from pyvc.sym import s_and, s_or, s_not, s_implies
     from spec.logic import ite
